@@ -449,8 +449,47 @@ fn random_history<C: CI>(ctx: &mut Ctx, steps: usize, tag: usize) {
     }
 }
 
+/// extend / Extend::extend / collect fed by an iterator that panics after k items: whatever the sequence holds
+/// afterwards must be its old content followed by a prefix of the symbols actually produced (a list never
+/// grows symbols nobody supplied)
+fn panicking_iterator<C: CI>(ctx: &mut Ctx) {
+    let a = C::alpha();
+    let name = C::NAME;
+    ctx.group(&format!("{name}/extend-with-panicking-iterator"), |ctx| {
+        let nz: Vec<u8> = { let z = *a.codes().iter().min().unwrap(); a.codes().into_iter().filter(|c| *c != z).collect() };
+        for r in 0..ctx.n(60, 1200, 3) {
+            if ctx.over() {
+                break;
+            }
+            let n0 = ctx.rng.below(per_word(a.bits) + 3);
+            let old = rand_codes(&mut ctx.rng, a, n0);
+            let total = 1 + ctx.rng.below(2 * per_word(a.bits));
+            let k = ctx.rng.below(total); // items produced before the panic
+            // non-zero codes only, so that zero-filled phantom slots are recognisable
+            let items: Vec<u8> = (0..total).map(|_| *ctx.rng.pick(&nz)).collect();
+            let syms: Vec<C> = items.iter().map(|c| C::try_from_bits(*c).unwrap()).collect();
+            let mut seq = mk::<C>(&old);
+            let res = std::panic::catch_unwind(std::panic::AssertUnwindSafe(|| {
+                let mut i = 0usize;
+                // an exact-size iterator (lower bound = total) that panics at item k
+                let it = syms.iter().map(|s| { if i == k { panic!("iterator gives up"); } i += 1; *s });
+                if r % 2 == 0 { seq.extend(it) } else { Extend::extend(&mut seq, it) }
+            }));
+            ctx.eval();
+            check!(ctx, res.is_err(), format!("extend|{name}|harness"), "the panicking iterator did not panic");
+            let _ = take_last_panic_location();
+            let got = codes_of::<C>(&seq);
+            let ok = got.len() >= n0 && got.len() <= n0 + k && got[..n0] == old[..] && got[n0..] == items[..got.len() - n0];
+            check!(ctx, ok, format!("extend|{name}|state-after-panicking-iterator"), "{name}: extend of {:?} with an iterator of {total} symbols that panics after producing {k}: the sequence now reads {:?} ({} symbols); a list would hold the old content plus at most those {k} symbols {:?}", a.text(&old), a.text_lossy(&got), got.len(), a.text(&items[..k]));
+            cell!(ctx, "{name}/extend-panicking/{}", if k == 0 { "k=0" } else { "k>0" });
+            ctx.nontrivial(fp(&[b"panic-iter", name.as_bytes(), &old, &items, &[k as u8]]));
+        }
+    });
+}
+
 fn run<C: CI>(ctx: &mut Ctx) {
     let name = C::NAME;
+    panicking_iterator::<C>(ctx);
     exhaustive::<C>(ctx, 1);
     exhaustive::<C>(ctx, 2);
     let deep = matches!(name, "dna" | "miupac") || (ctx.tier == Tier::Thorough && !ctx.lite);
@@ -472,6 +511,6 @@ fn run<C: CI>(ctx: &mut Ctx) {
 fn main() {
     run_main("C06", |ctx| {
         for_each_codec!(run, ctx);
-        ctx.note("rule", json!("history + executable Vec model. (a) bounded-exhaustive: ~46 concrete ops (push x2, extend x2, clear, truncate x6 incl. n>len and n so large that n*BITS overflows, append/prepend/insert{0,mid,len} x 3 argument shapes {empty@1, 1 symbol@offset 1, 3 symbols straddling a word}, remove in 14 position/RangeBounds-form combinations incl. Bound tuples) from start lengths {0,1,W-1,W,W+1}: ALL histories of depth 1-2 for every codec, depth 3 for dna and miupac (thorough: all codecs); (b) random histories of 200 (thorough 2000) ops with lengths oscillating around 1-4 word boundaries (every fifth history around 8, 9, 16 or 33 words), start states with exact / spare / pre-reserved capacity, Extend fed through iterators of seven size-hint shapes, arguments = windows at random bit offsets of other sequences and of earlier clones, every RangeBounds form. After every step: len, symbols, bit length, raw image; display / == fresh parse / hash every step (exhaustive: last step) resp. every 8th (random). Snapshots (clone, slice.to_owned, String) re-verified at the end. Distinct = (codec, start, history index) resp. (codec, state-before, op)."));
+        ctx.note("rule", json!("history + executable Vec model. (a) bounded-exhaustive: ~46 concrete ops (push x2, extend x2, clear, truncate x6 incl. n>len and n so large that n*BITS overflows, append/prepend/insert{0,mid,len} x 3 argument shapes {empty@1, 1 symbol@offset 1, 3 symbols straddling a word}, remove in 14 position/RangeBounds-form combinations incl. Bound tuples) from start lengths {0,1,W-1,W,W+1}: ALL histories of depth 1-2 for every codec, depth 3 for dna and miupac (thorough: all codecs); (b) random histories of 200 (thorough 2000) ops with lengths oscillating around 1-4 word boundaries (every fifth history around 8, 9, 16 or 33 words), start states with exact / spare / pre-reserved capacity, Extend fed through iterators of seven size-hint shapes, arguments = windows at random bit offsets of other sequences and of earlier clones, every RangeBounds form. After every step: len, symbols, bit length, raw image; display / == fresh parse / hash every step (exhaustive: last step) resp. every 8th (random). Snapshots (clone, slice.to_owned, String) re-verified at the end. extend / Extend::extend with an iterator that panics after k items: the sequence must hold its old content plus a prefix of the produced symbols. Distinct = (codec, start, history index) resp. (codec, state-before, op)."));
     });
 }
